@@ -143,6 +143,8 @@ class DashTiming:
             self.timeShiftBufferDepth = int(self.elapsedTime.total_seconds())
         logging.debug('timeShiftBufferDepth: %d seconds', self.timeShiftBufferDepth)
         default_mup = round(2.0 * self.stream_reference.segment_duration / self.stream_reference.timescale)
+        # (segments shorter than a quarter of a second would give zero)
+        default_mup = max(1, default_mup)
         self.minimumUpdatePeriod = options.minimumUpdatePeriod
         if self.minimumUpdatePeriod is None:
             self.minimumUpdatePeriod = default_mup
